@@ -127,3 +127,34 @@ Theorem C05_api_sample_never_changes_continuous_chunked : forall c ops1 ops2 k v
   lookup_st (p_w (fold_left (api_state c) (ops1 ++ ops2) py_init)) k = Some v.
 Proof. exact api_sample_never_changes_continuous_chunked. Qed.
 Print Assumptions C05_api_sample_never_changes_continuous_chunked.
+
+(* ---- the Python front end regenerated.  Gen/PyFront.v is produced on every run from the current
+   source of DigitalRFWriter.rf_write / rf_write_blocks (translator T6): the resolution of next_sample,
+   the not-in-the-past test, the chain of `if ...: raise ValueError` validations in their order, and the
+   counter updates.  The hand model Model/PyWriter.v -- about which the theorems above speak -- is
+   proved equal to it: rf_write as a whole, the validation chain of rf_write_blocks (it raises exactly
+   when py_arrays_ok is false, with the first failing test deciding), and the accepted branch. *)
+From DRF Require Import Gen.PyFront Proofs.PyFrontProofs.
+
+Theorem C05_py_rf_write_is_the_regenerated_code : forall c ps ns vec,
+  py_rf_write FromCursor c ps ns vec =
+  let ns' := gen_resolve (p_next ps) ns in
+  if gen_write_in_past (p_next ps) ns' then ((ValueError, 0), ps)
+  else if p_closed ps then ((IOError, 0), ps)
+  else let '(rc, w') := write_one c (p_w ps) ns' vec in
+       if negb (rc =? 0) then ((RuntimeError, 0), mkPy (p_next ps) (p_written ps) (p_gap ps) false w')
+       else let '(nx, wr, gp, ret) := gen_write_counters (p_next ps) (p_written ps) (p_gap ps) (w_gi w') (zlen vec) in
+            ((OK, ret), mkPy nx wr gp false w').
+Proof. exact py_rf_write_regen. Qed.
+Print Assumptions C05_py_rf_write_is_the_regenerated_code.
+
+Theorem C05_blocks_validation_is_the_regenerated_chain : forall next vlen G D, G <> [] -> D <> [] ->
+  py_arrays_ok next vlen G D = negb (existsb (fun b => b) (gen_blocks_checks next vlen G D)).
+Proof. exact blocks_checks_regen. Qed.
+Print Assumptions C05_blocks_validation_is_the_regenerated_chain.
+
+Theorem C05_blocks_first_failing_test_decides : forall c ps G D vec, G <> [] -> D <> [] ->
+  py_arrays_ok (p_next ps) (zlen vec) G D = false ->
+  py_rf_write_blocks c ps G D vec = ((ValueError, first_true (gen_blocks_checks (p_next ps) (zlen vec) G D) 1), ps).
+Proof. exact blocks_first_failure_regen. Qed.
+Print Assumptions C05_blocks_first_failing_test_decides.
